@@ -192,6 +192,16 @@ def make_transform(spec: dict, tree, cache: dict):
         return T.CutAxonTree() if 2 in types else None
     if op == "cut_dendrite":
         return T.CutDendriteTree() if 3 in types else None
+    if op == "resample":
+        # cost bound, decided on the harness side: a spacing that would produce more than ~3000 nodes on this
+        # tree is widened (a pipeline of scalings followed by d=0.5 otherwise costs 10 s per run)
+        xyz = np.stack([np.asarray(tree.x(), np.float64), np.asarray(tree.y(), np.float64),
+                        np.asarray(tree.z(), np.float64)], axis=1)
+        pid = np.asarray(tree.pid())
+        length = float(np.sqrt(((xyz[1:] - xyz[pid[1:]]) ** 2).sum(axis=1)).sum()) if len(pid) > 1 else 0.0
+        if np.isfinite(length) and length / spec["d"] > 3000:
+            spec = dict(spec, d=float(f"{length / 3000:.3g}"))
+            key = json.dumps(spec, sort_keys=True)
     if key in cache:
         return cache[key]  # transform objects are reused across steps: their scratch state must not leak
     if op == "translate":
